@@ -799,11 +799,12 @@ def handleElemC (cfg : Cfg) (st : OutSt) (n : Name) (as : List Attr) (rs1 : RS) 
     -- every token a handler tries to write in this state is refused, and a reply that was
     -- refused is not a reply: a get/set IQ is still unanswered whatever the handler attempted
     let needs := isIq n && isRequestTyp (getTyp as')
-    if needs && (replyTo cfg as').isNone then .stop (some inv) [] (.error .badJid)
+    -- (every token was refused: the handler leaves a writer that failed on an output that is
+    -- still open - the first thing the session looks at after the handler returned)
+    if st1 == .broken && !(writesOf prog.ops).isEmpty then .stop (some inv) [] (.error .outputBroken)
+    else if needs && (replyTo cfg as').isNone then .stop (some inv) [] (.error .badJid)
     else if needs then .stop (some inv) [] (.error (if st1 == .closed then .outputClosed else .outputBroken))
     else if st1 == .closed && !(writesOf prog.ops).isEmpty then .stop (some inv) [] (.error .outputClosed)
-    -- (every token was refused: the handler leaves a writer that failed)
-    else if !(writesOf prog.ops).isEmpty then .stop (some inv) [] (.error .outputBroken)
     else
       match discard es1 with
       | (none, es2) => .next (some inv) [] es2.rs
